@@ -356,7 +356,7 @@ func (g *Gen) Integer() *Schema {
 		g.bounds(s, pool)
 	}
 	if r.Chance(0.2) {
-		s.MultipleOf = Fp(PickOf(r, []float64{2, 3, 5, 10}))
+		s.MultipleOf = Fp(PickOf(r, []float64{2, 3, 5, 10, 1}))
 	}
 	return s
 }
@@ -373,7 +373,7 @@ func (g *Gen) Number() *Schema {
 		g.bounds(s, pool)
 	}
 	if r.Chance(0.2) {
-		s.MultipleOf = Fp(PickOf(r, []float64{0.25, 0.5, 1.5, 2, 3}))
+		s.MultipleOf = Fp(PickOf(r, []float64{0.25, 0.5, 1.5, 2, 3, 1, 1}))
 	}
 	return s
 }
@@ -407,6 +407,10 @@ func (g *Gen) Enum() *Schema {
 		}
 		for _, i := range r.Perm(len(pool))[:n] {
 			s.Enum = append(s.Enum, pool[i])
+		}
+		if r.Chance(0.1) {
+			// a value listed twice is legal and adds nothing to the accepted set
+			s.Enum = append(s.Enum, s.Enum[r.IntN(len(s.Enum))])
 		}
 	case 1:
 		s.Types = []string{"integer"}
